@@ -427,11 +427,11 @@ Proof.
       [rewrite Hs; lsv | barith | barith].
 Qed.
 
-Lemma good_prod_eff : forall fa src pl rn p pre rest off a,
+Lemma good_prod_eff : forall fa fp src pl rn p pre rest off a,
   src = pre ++ print_prod pl p ++ rest -> off = byte_len pre ->
-  Good fa src a -> Good fa src (prod_eff fa pl rn off p a).
+  Good fa src a -> Good fa src (prod_eff fa fp pl rn off p a).
 Proof.
-  intros fa src pl rn p pre rest off a Hs Hi H. unfold prod_eff. cbv zeta. unfold print_prod in Hs.
+  intros fa fp src pl rn p pre rest off a Hs Hi H. unfold prod_eff. cbv zeta. unfold print_prod in Hs.
   assert (Hins : Good fa src (syms_ins pl 0 (prod_o0 pl off p) (ap_syms p) a)).
   { apply (syms_ins_good fa src pl (ap_syms p) 0 _ (pre ++ print_empty pl p)
                          (print_prec pl p ++ print_action pl p ++ rest)); [rewrite Hs; lsv | unfold prod_o0; barith | exact H]. }
@@ -456,18 +456,18 @@ Proof.
     + unfold prod_o2, prod_o1, prod_o0. barith.
 Qed.
 
-Lemma good_prods_eff : forall fa src rl rn ps pi pre rest off a,
+Lemma good_prods_eff : forall fa fp src rl rn ps pi pre rest off a,
   src = pre ++ print_prods rl pi ps ++ rest -> off = byte_len pre ->
-  Good fa src a -> Good fa src (prods_eff fa rl rn pi off ps a).
+  Good fa src a -> Good fa src (prods_eff fa fp rl rn pi off ps a).
 Proof.
-  intros fa src rl rn ps. induction ps as [|p ps IH]; intros pi pre rest off a Hs Hi H; cbn [prods_eff]; [exact H|].
+  intros fa fp src rl rn ps. induction ps as [|p ps IH]; intros pi pre rest off a Hs Hi H; cbn [prods_eff]; [exact H|].
   cbn [print_prods] in Hs.
   assert (Htc : len_utf8 (match ps with [] => c_semi | _ :: _ => c_bar end) = 1) by (destruct ps; reflexivity).
   set (tc := match ps with [] => c_semi | _ :: _ => c_bar end) in *.
   apply (IH (S pi) (pre ++ print_prod (r_play rl pi) p ++ tc :: pg_term (r_play rl pi)) rest).
   - rewrite Hs. lsv.
   - unfold prod_next, prod_o3, prod_o2, prod_o1, prod_o0, print_prod. barith.
-  - apply (good_prod_eff fa src (r_play rl pi) rn p pre
+  - apply (good_prod_eff fa fp src (r_play rl pi) rn p pre
                          (tc :: pg_term (r_play rl pi) ++ print_prods rl (S pi) ps ++ rest)); try assumption.
     rewrite Hs. lsv.
 Qed.
@@ -487,12 +487,12 @@ Proof.
   destruct (get_rule (a_rules a1) n); [exact H1 | apply good_add_rule; assumption].
 Qed.
 
-Lemma good_rule_eff : forall fa src rl at_ r pre rest off a,
+Lemma good_rule_eff : forall fa fp src rl at_ r pre rest off a,
   src = pre ++ print_rule rl r ++ rest -> off = byte_len pre ->
-  Good fa src a -> Good fa src (rule_eff fa rl off at_ r a).
+  Good fa src a -> Good fa src (rule_eff fa fp rl off at_ r a).
 Proof.
-  intros fa src rl at_ r pre rest off a Hs Hi H. unfold rule_eff. unfold print_rule in Hs.
-  apply (good_prods_eff fa src rl (ar_name r) (ar_prods r) 0
+  intros fa fp src rl at_ r pre rest off a Hs Hi H. unfold rule_eff. unfold print_rule in Hs.
+  apply (good_prods_eff fa fp src rl (ar_name r) (ar_prods r) 0
                         (pre ++ ar_name r ++ rg_name rl ++ print_rtype rl r ++ c_colon :: rg_colon rl) rest).
   - rewrite Hs. lsv.
   - unfold rule_body_off. barith.
@@ -502,16 +502,16 @@ Proof.
     rewrite Hs. lsv.
 Qed.
 
-Lemma good_rules_eff : forall fa src l rs r at_ pre rest off a,
+Lemma good_rules_eff : forall fa fp src l rs r at_ pre rest off a,
   src = pre ++ print_rules l r rs ++ rest -> off = byte_len pre ->
-  Good fa src a -> Good fa src (rules_eff fa l r off at_ rs a).
+  Good fa src a -> Good fa src (rules_eff fa fp l r off at_ rs a).
 Proof.
-  intros fa src l rs. induction rs as [|x rs IH]; intros r at_ pre rest off a Hs Hi H; cbn [rules_eff]; [exact H|].
+  intros fa fp src l rs. induction rs as [|x rs IH]; intros r at_ pre rest off a Hs Hi H; cbn [rules_eff]; [exact H|].
   cbn [print_rules] in Hs.
   apply (IH (S r) at_ (pre ++ print_rule (rlay_of l r) x) rest).
   - rewrite Hs. lsv.
   - barith.
-  - apply (good_rule_eff fa src (rlay_of l r) at_ x pre (print_rules l (S r) rs ++ rest)); try assumption.
+  - apply (good_rule_eff fa fp src (rlay_of l r) at_ x pre (print_rules l (S r) rs ++ rest)); try assumption.
     rewrite Hs. lsv.
 Qed.
 
@@ -519,13 +519,13 @@ Qed.
 (*  The whole file                                                            *)
 (* ======================================================================== *)
 (* only the declarations' part of [wf_layout] is used (escaped %epp bodies, numerals) *)
-Lemma ast_of_good : forall fa l ag, wf_decls l 0 (ag_decls ag) -> Good fa (print l ag) (ast_of fa l ag).
+Lemma ast_of_good : forall fa fp l ag, wf_decls l 0 (ag_decls ag) -> Good fa (print l ag) (ast_of fa fp l ag).
 Proof.
-  intros fa l ag Hd. unfold ast_of.
+  intros fa fp l ag Hd. unfold ast_of.
   assert (Hp : forall a, Good fa (print l ag) a -> Good fa (print l ag) (programs_eff ag a)).
   { intros a Ha. unfold programs_eff. destruct (ag_programs ag); [apply good_upd_programs|]; exact Ha. }
   apply Hp.
-  apply (good_rules_eff fa (print l ag) l (ag_rules ag) 0 (actiont_of (gat_of l ag))
+  apply (good_rules_eff fa fp (print l ag) l (ag_rules ag) 0 (actiont_of (gat_of l ag))
                         (l_gap l [0] ++ print_decls l 0 (ag_decls ag) ++ kw_pp ++ l_gap l [2]) (print_programs l ag)).
   - unfold print. lsv.
   - unfold rules_off, decls_off. barith.
@@ -539,7 +539,7 @@ Qed.
 
 Lemma ast_of_spans_select : ast_of_spans_select_stmt.
 Proof.
-  intros fa l ag Hwf A src. destruct Hwf as [_ [Hd _]].
-  destruct (ast_of_good fa l ag Hd) as [H1 H2 H3 H4 H5 H6 H7 H8 H9 H10 H11 H12].
+  intros fa fp l ag Hwf A src. destruct Hwf as [_ [Hd _]].
+  destruct (ast_of_good fa fp l ag Hd) as [H1 H2 H3 H4 H5 H6 H7 H8 H9 H10 H11 H12].
   exact (conj H1 (conj H2 (conj H3 (conj H4 (conj H5 (conj H6 (conj H11 (conj H12 (conj H7 (conj H8 (conj H9 H10))))))))))).
 Qed.
